@@ -153,6 +153,7 @@ def sched_part(ctx, r, quick, judge):
     import schedeng
     eng = schedeng.Sched(ctx)
     bad = 0
+    keepq = []
     nrun = 150 if quick else 4000
     for k in range(nrun):
         names = list(r.choice(NAMESETS))
@@ -160,6 +161,7 @@ def sched_part(ctx, r, quick, judge):
             names.reverse()
         doms = set(n[n.index(b"."):] for n in names if b"." in n)
         keep = len(doms) > 1              # dsh(): labels keep the domain as soon as two targets differ in theirs (exact comparison)
+        keepq.append((keep, names))
         hosts, streams = [], {}
         tails = r.chance(1, 3)            # every host ends in an unterminated tail: all workers pass through the tail path at once
         for nm in names:
@@ -211,6 +213,15 @@ def sched_part(ctx, r, quick, judge):
                           detail=problem + "; several hosts streaming at once, schedule of %d steps" % len(ru.choices))
             if bad >= 3:
                 break
+    # the oracle's rule for "labels keep the domain" is the extracted Dsh/Domain.v (C06_domain_rule) on the same target lists
+    model = ctx.build_runner("dsh", "dsh_model")
+    mres = ctx.run_lines([model], ["dom 0 " + " ".join(hexs(n) for n in nms) for _, nms in keepq], crash_tag="MODEL-CRASH")
+    for (kp, nms), mr in zip(keepq, mres):
+        if mr != "keep=%d" % (1 if kp else 0):
+            bad += 1
+            ctx.violation("no-failing-input-found", case={"names": [n.decode() for n in nms]}, expected=mr, observed="keep=%d" % (1 if kp else 0), engine="sched",
+                          correspondence="sched: domain-in-label rule of the oracle = Domain.domain_in_label (extracted)", detail="the oracle's domain rule and Dsh/Domain.v disagree on %r" % nms)
+            break
     return nrun, bad
 
 
